@@ -1,18 +1,331 @@
-//! Requests beyond the edge operations (searches, containers, serde, ...), per flavour.
+//! Requests beyond the edge operations (searches, orderings, containers, serde, ...), per flavour.
 use crate::exec::*;
 use crate::oracle::*;
+use crate::oracle_search as os;
+use std::cell::RefCell;
+
+/// parsed `search` / `order` request
+#[derive(Clone, Debug)]
+pub struct SearchSpec {
+    pub kind: String,   // bfs dfs pfs-min pfs-max pre post
+    pub tr: bool,       // transpose()
+    pub dflt: bool,     // ordering without an explicit direction (`postorder()` default)
+    pub root: usize,
+    pub target: Option<usize>,
+    pub method: String, // none each filter
+    pub rej: Vec<(usize, usize, u32)>,
+    pub mode: String, // node path cycle nodes edges
+}
+
+pub fn parse_rej(s: &str) -> Vec<(usize, usize, u32)> {
+    if s == "-" || s.is_empty() {
+        return vec![];
+    }
+    s.split(',')
+        .map(|x| {
+            let (u, r) = x.split_once('>').unwrap();
+            let (v, e) = r.split_once(':').unwrap();
+            (u.parse().unwrap(), v.parse().unwrap(), e.parse().unwrap())
+        })
+        .collect()
+}
+
+pub fn parse_search(t: &[&str]) -> SearchSpec {
+    // search <kind> <fwd|tr> <root> <target|-> <none|each|filter:REJ> <node|path|cycle>
+    // order  <pre|post> <fwd|tr|default> <root> <method> <nodes|edges>
+    let (method, rej) = |m: &str| -> (String, Vec<(usize, usize, u32)>) {
+        if let Some(r) = m.strip_prefix("filter:") {
+            ("filter".into(), parse_rej(r))
+        } else {
+            (m.to_string(), vec![])
+        }
+    }(if t[0] == "search" { t[5] } else { t[4] });
+    if t[0] == "search" {
+        SearchSpec { kind: t[1].into(), tr: t[2] == "tr", dflt: false, root: t[3].parse().unwrap(), target: t[4].parse().ok(), method, rej, mode: t[6].into() }
+    } else {
+        SearchSpec { kind: t[1].into(), tr: t[2] == "tr", dflt: t[2] == "default", root: t[3].parse().unwrap(), target: None, method, rej, mode: t[5].into() }
+    }
+}
+
+pub struct SearchOut {
+    pub node: Option<usize>,
+    pub path: Option<Vec<(usize, usize, u32)>>,
+    pub path_nodes: Vec<usize>,
+    pub path_len: usize,
+    pub list_nodes: Vec<usize>,
+    pub list_edges: Vec<(usize, usize, u32)>,
+    pub trace: Vec<(usize, usize, u32)>,
+}
+
+pub fn show_search(spec: &SearchSpec, o: &SearchOut) -> String {
+    let mut s = match spec.mode.as_str() {
+        "node" => format!("node={:?}", o.node),
+        "path" | "cycle" => match &o.path {
+            Some(p) => format!("path={} nodes={}", fmt_edges(p), fmt_keys(&o.path_nodes)),
+            None => "path=None".to_string(),
+        },
+        "nodes" => format!("nodes={}", fmt_keys(&o.list_nodes)),
+        _ => format!("edges={}", fmt_edges(&o.list_edges)),
+    };
+    if spec.method != "none" {
+        s.push_str(&format!(" trace={}", fmt_edges(&o.trace)));
+    }
+    s
+}
+
+macro_rules! with_method {
+    ($b:expr, $spec:expr, $trace:expr, $run:ident) => {{
+        let rej = $spec.rej.clone();
+        let mut f_each = |e: &Edge<usize, i64, u32>| {
+            $trace.borrow_mut().push((*e.0.key(), *e.1.key(), e.2));
+        };
+        let mut f_filter = |e: &Edge<usize, i64, u32>| -> bool {
+            let t = (*e.0.key(), *e.1.key(), e.2);
+            $trace.borrow_mut().push(t);
+            !rej.contains(&t)
+        };
+        let b = $b;
+        match $spec.method.as_str() {
+            "each" => {
+                let mut b = b.for_each(&mut f_each);
+                $run!(b)
+            }
+            "filter" => {
+                let mut b = b.filter(&mut f_filter);
+                $run!(b)
+            }
+            _ => {
+                let mut b = b;
+                $run!(b)
+            }
+        }
+    }};
+}
+
+macro_rules! run_search_modes {
+    ($spec:expr, $out:expr) => {
+        macro_rules! run {
+            ($bb:ident) => {{
+                match $spec.mode.as_str() {
+                    "node" => {
+                        $out.node = $bb.search().map(|n| *n.key());
+                    }
+                    "path" => {
+                        if let Some(p) = $bb.search_path() {
+                            $out.path = Some(p.to_vec_edges().iter().map(|Edge(u, v, e)| (*u.key(), *v.key(), *e)).collect());
+                            $out.path_nodes = p.to_vec_nodes().iter().map(|n| *n.key()).collect();
+                            $out.path_len = p.len();
+                        }
+                    }
+                    _ => {
+                        if let Some(p) = $bb.search_cycle() {
+                            $out.path = Some(p.to_vec_edges().iter().map(|Edge(u, v, e)| (*u.key(), *v.key(), *e)).collect());
+                            $out.path_nodes = p.to_vec_nodes().iter().map(|n| *n.key()).collect();
+                            $out.path_len = p.len();
+                        }
+                    }
+                }
+            }};
+        }
+    };
+}
+
+macro_rules! run_order_modes {
+    ($spec:expr, $out:expr) => {
+        macro_rules! run {
+            ($bb:ident) => {{
+                if $spec.mode == "nodes" {
+                    $out.list_nodes = $bb.search_nodes().iter().map(|n| *n.key()).collect();
+                } else {
+                    $out.list_edges = $bb.search_edges().iter().map(|Edge(u, v, e)| (*u.key(), *v.key(), *e)).collect();
+                }
+            }};
+        }
+    };
+}
+
+macro_rules! kind_search {
+    (di) => {
+        pub fn do_search(st: &St, spec: &SearchSpec) -> SearchOut {
+            let mut out = SearchOut { node: None, path: None, path_nodes: vec![], path_len: 0, list_nodes: vec![], list_edges: vec![], trace: vec![] };
+            let trace: RefCell<Vec<(usize, usize, u32)>> = RefCell::new(vec![]);
+            let root = st.node(spec.root).clone();
+            let tgt = spec.target;
+            {
+                run_search_modes!(spec, out);
+                match spec.kind.as_str() {
+                    "bfs" => {
+                        let b = root.bfs();
+                        let b = if spec.tr { b.transpose() } else { b };
+                        let b = match &tgt { Some(t) => b.target(t), None => b };
+                        with_method!(b, spec, trace, run)
+                    }
+                    "dfs" => {
+                        let b = root.dfs();
+                        let b = if spec.tr { b.transpose() } else { b };
+                        let b = match &tgt { Some(t) => b.target(t), None => b };
+                        with_method!(b, spec, trace, run)
+                    }
+                    "pfs-min" | "pfs-max" => {
+                        let b = root.pfs();
+                        let b = if spec.kind == "pfs-max" { b.max() } else { b.min() };
+                        let b = if spec.tr { b.transpose() } else { b };
+                        let b = match &tgt { Some(t) => b.target(t), None => b };
+                        with_method!(b, spec, trace, run)
+                    }
+                    _ => {}
+                }
+            }
+            {
+                run_order_modes!(spec, out);
+                match spec.kind.as_str() {
+                    "pre" => {
+                        let b = root.preorder();
+                        let b = if spec.tr { b.transpose() } else { b };
+                        with_method!(b, spec, trace, run)
+                    }
+                    "post" => {
+                        let b = root.postorder();
+                        let b = if spec.tr { b.transpose() } else { b };
+                        with_method!(b, spec, trace, run)
+                    }
+                    _ => {}
+                }
+            }
+            out.trace = trace.into_inner();
+            out
+        }
+    };
+    (un) => {
+        pub fn do_search(st: &St, spec: &SearchSpec) -> SearchOut {
+            let mut out = SearchOut { node: None, path: None, path_nodes: vec![], path_len: 0, list_nodes: vec![], list_edges: vec![], trace: vec![] };
+            let trace: RefCell<Vec<(usize, usize, u32)>> = RefCell::new(vec![]);
+            let root = st.node(spec.root).clone();
+            let tgt = spec.target;
+            {
+                run_search_modes!(spec, out);
+                match spec.kind.as_str() {
+                    "bfs" => {
+                        let b = root.bfs();
+                        let b = match &tgt { Some(t) => b.target(t), None => b };
+                        with_method!(b, spec, trace, run)
+                    }
+                    "dfs" => {
+                        let b = root.dfs();
+                        let b = match &tgt { Some(t) => b.target(t), None => b };
+                        with_method!(b, spec, trace, run)
+                    }
+                    "pfs-min" | "pfs-max" => {
+                        let b = root.pfs();
+                        let b = if spec.kind == "pfs-max" { b.max() } else { b.min() };
+                        let b = match &tgt { Some(t) => b.target(t), None => b };
+                        with_method!(b, spec, trace, run)
+                    }
+                    _ => {}
+                }
+            }
+            {
+                run_order_modes!(spec, out);
+                match spec.kind.as_str() {
+                    "pre" => {
+                        let b = root.order().pre();
+                        with_method!(b, spec, trace, run)
+                    }
+                    "post" => {
+                        let b = root.order().post();
+                        with_method!(b, spec, trace, run)
+                    }
+                    _ => {}
+                }
+            }
+            out.trace = trace.into_inner();
+            out
+        }
+    };
+}
+
+macro_rules! kind_reversed {
+    (di) => {
+        /// fresh nodes with every edge reversed; `out_from_in`: new outgoing lists = old incoming lists
+        /// (same order), otherwise new incoming lists = old outgoing lists (same order)
+        pub fn reversed(st: &St, out_from_in: bool) -> St {
+            let nodes: Vec<N> = st.nodes.iter().map(|n| N::new(*n.key(), *n.value())).collect();
+            let find = |k: usize| nodes.iter().find(|n| *n.key() == k).unwrap();
+            for n in &st.nodes {
+                if out_from_in {
+                    for Edge(u, v, e) in n.iter_in() {
+                        find(*v.key()).connect(find(*u.key()), e);
+                    }
+                } else {
+                    for Edge(u, v, e) in n.iter_out() {
+                        find(*v.key()).connect(find(*u.key()), e);
+                    }
+                }
+            }
+            St { nodes }
+        }
+    };
+    (un) => {
+        pub fn reversed(st: &St, _out_from_in: bool) -> St {
+            St { nodes: st.nodes.clone() }
+        }
+    };
+}
 
 macro_rules! ext_mod {
     ($m:ident, $fl:ident, $kind:ident) => {
         pub mod $m {
             #![allow(unused, clippy::all)]
             use super::*;
-            use crate::exec::$m::{St, G, N};
+            use crate::exec::$m::{St, G, N, DIRECTED};
             use gdsl::$fl::*;
             #[derive(Default)]
             pub struct Ext {}
+            kind_search!($kind);
+            kind_reversed!($kind);
+
             pub fn exec_line(st: &mut St, ext: &mut Ext, t: &[&str], raw: &str, ctx: &mut Ctx, case: &str, li: usize) -> String {
-                "bad-op".to_string()
+                match t[0] {
+                    "search" | "order" => {
+                        let spec = parse_search(t);
+                        let out = do_search(st, &spec);
+                        ctx.count(&format!("search.{}.{}.{}", spec.kind, spec.mode, if spec.mode == "nodes" || spec.mode == "edges" { "list" } else if out.node.is_some() || out.path.is_some() { "found" } else { "none" }));
+                        if !ctx.quiet && !ctx.oracles.is_empty() {
+                            let ls = st.lists();
+                            let vals: Vec<(usize, i64)> = st.nodes.iter().map(|n| (*n.key(), *n.value())).collect();
+                            for (name, msg) in os::check(DIRECTED, &ls, &vals, &spec, &out, &ctx.oracles) {
+                                ctx.fail(case, li, &name, msg);
+                            }
+                        }
+                        let shown = show_search(&spec, &out);
+                        if DIRECTED && !ctx.quiet && ctx.oracles.iter().any(|o| o == "c08") && !spec.dflt {
+                            // metamorphic: transpose() on G == the same search without it on the edge-reversed graph
+                            let rev = reversed(st, !spec.tr);
+                            let mut spec2 = spec.clone();
+                            spec2.tr = !spec.tr;
+                            let out2 = do_search(&rev, &spec2);
+                            let shown2 = show_search(&spec2, &out2);
+                            if shown != shown2 {
+                                ctx.fail(case, li, "c08", format!("`{}` gives `{}` but the {} search on the edge-reversed graph gives `{}`", raw, shown, if spec2.tr { "transposed" } else { "plain" }, shown2));
+                            }
+                        }
+                        shown
+                    }
+                    "cmp" => {
+                        // cmp k1 v1 k2 v2 : comparison operators on two fresh nodes
+                        let a = N::new(t[1].parse().unwrap(), t[2].parse().unwrap());
+                        let b2 = N::new(t[3].parse().unwrap(), t[4].parse().unwrap());
+                        let s = format!("eq={} ne={} lt={} le={} gt={} ge={} cmp={:?} pcmp={:?}", a == b2, a != b2, a < b2, a <= b2, a > b2, a >= b2, a.cmp(&b2), a.partial_cmp(&b2));
+                        if !ctx.quiet && ctx.oracles.iter().any(|o| o == "c06") {
+                            let (k1, v1, k2, v2): (usize, i64, usize, i64) = (t[1].parse().unwrap(), t[2].parse().unwrap(), t[3].parse().unwrap(), t[4].parse().unwrap());
+                            if (a == b2) != (k1 == k2) || a.cmp(&b2) != v1.cmp(&v2) || a.partial_cmp(&b2) != Some(v1.cmp(&v2)) || (a < b2) != (v1 < v2) {
+                                ctx.fail(case, li, "c06", format!("comparison of node({k1},{v1}) with node({k2},{v2}): {s}"));
+                            }
+                        }
+                        s
+                    }
+                    _ => "bad-op".to_string(),
+                }
             }
         }
     };
